@@ -1185,6 +1185,7 @@ static int parse_container(struct scanner_s *scanner, cif_container_tp *containe
                 }
                 /* recover by pushing back the colon */
                 scanner->next_char -= 1;
+                POSN_INCCOLUMN(scanner, -1);
                 scanner->ttype = alt_ttype;  /* TVALUE or QVALUE */
 
                 /* notify the configured whitespace callback, if any, of zero-length whitespace */
@@ -1286,6 +1287,7 @@ static int parse_item(struct scanner_s *scanner, cif_container_tp *container, UC
                 }
                 /* recover by pushing back the colon */
                 scanner->next_char -= 1;
+                POSN_INCCOLUMN(scanner, -1);
                 scanner->ttype = alt_ttype;  /* TVALUE or QVALUE */
 
                 /* notify the configured whitespace callback, if any, of zero-length whitespace */
@@ -1642,6 +1644,7 @@ static int parse_loop_packets(struct scanner_s *scanner, cif_loop_tp *loop, stri
                             }
                             /* recover by pushing back the colon */
                             scanner->next_char -= 1;
+                            POSN_INCCOLUMN(scanner, -1);
                             scanner->ttype = alt_ttype;  /* TVALUE or QVALUE */
 
                             /* notify the configured whitespace callback, if any, of zero-length whitespace */
@@ -1854,6 +1857,7 @@ static int parse_list(struct scanner_s *scanner, cif_value_tp **listp) {
                 }
                 /* recover by pushing back the colon */
                 scanner->next_char -= 1;
+                POSN_INCCOLUMN(scanner, -1);
                 scanner->ttype = alt_ttype;  /* TVALUE or QVALUE */
 
                 /* notify the configured whitespace callback, if any, of zero-length whitespace */
@@ -2544,6 +2548,7 @@ static int next_token(struct scanner_s *scanner) {
                                  * always whitespace
                                  */
                                 scanner->next_char += 1;
+                                POSN_INCCOLUMN(scanner, 1);
                                 ttype = KEY;
                                 break;
                             }
@@ -2568,6 +2573,7 @@ static int next_token(struct scanner_s *scanner) {
                                 if (c == UCHAR_COLON) {
                                     /* Not diagnosed as an error _here_ */
                                     scanner->next_char += 1;
+                                    POSN_INCCOLUMN(scanner, 1);
                                     ttype = TKEY;
                                 }
                             } else if (result == CIF_EOF) {
@@ -2917,6 +2923,7 @@ static int scan_delim_string(struct scanner_s *scanner) {
                         /* test for a third delimiter character */
                         if (c == delim) {
                             scanner->next_char += 1;
+                            POSN_INCCOLUMN(scanner, 1);
                             return scan_triple_delim_string(scanner);
                         }
                     }
